@@ -157,6 +157,19 @@ CHECKS = {
        "confirmed one owes exactly one ACK. Tied to the code by histories of 140..600 uplinks per session in all regions compared step by step, plus an independent python reference machine.",
   note=COMMON_NOTE,
   tech="machine-checked refinement proof in Coq (session model vs abstract ADR/ACK spec) + long-history correspondence + independent reference machine", ref="6 C12"),
+ "C13": dict(
+  text="PARTIAL in Coq. Theorems (Props/C13.v): for every legal parameter value the command bytes the SX126x model computes (SetModulationParams, SetRfFrequency, SetPacketParams, SetDioIrqParams per "
+       "radio mode, SetSleep/SetStandby/SetTx/ClearIrqStatus/SetTxContinuousWave/SetBufferBaseAddress/WriteBuffer/CalibrateImage/SetPaConfig, the TxModulation and IQ-polarity erratum values) equal the "
+       "datasheet command formats of Spec/PhySpec.v (opcodes, field order, parameter code tables written from the datasheet, compared with the constants REGENERATED from the driver source), and the SX1276 "
+       "read-modify-write results put the commanded codes into the Bw / CodingRate / SF / LowDataRateOptimize fields and keep every other bit, for every prior register byte (sweep). Not proved: the "
+       "order of transactions inside each operation (the hand-written programs of Model/Sx126x.v, Sx127x.v). Tied to the code THREE ways on the same emulated bus: the Coq models against the lora-phy "
+       "drivers (pin-level traces, exact), and the drivers against Semtech's reference drivers (SWL2001 C sources through smtc-modem-cores): SX1261/SX1262 transaction by transaction in wire-canonical "
+       "form, SX1276 by register outcome on randomised prior register contents, over every LoRaWAN channel frequency + a stride over 137-1020 MHz, every SF x BW x CR, packet parameter grids, sync "
+       "words, symbol timeouts, IRQ masks, RX/TX/CAD start, PA/TX parameters, image calibration, status decoding.",
+  note=COMMON_NOTE + "The reference driver is external C code compiled by the smtc-modem-cores-sys crate from the offline cargo registry (cmake + bindgen); documented errata placement differs (the "
+       "reference applies IQ inversion and errata 2.3 at SetRx/SetTx time): those registers are compared against the datasheet values through the model, not against the reference. "
+       "Repaired while building: SX127x Frf was truncated instead of rounded (one step below the reference for about half of all frequencies).",
+  tech="machine-checked proof in Coq (command / register encodings = datasheet formats for all parameters) + translator-regenerated PHY tables + three-way pin-level correspondence (model, driver, Semtech reference driver)", ref="6 C13"),
  "C15": dict(
   text="Coq theorems: every driver's LDRO decision and the bit programmed into the chip equal the airtime calculator's, and that "
        "decision is 'on' exactly when 2^SF*10^6 >= 16384*BW (exact arithmetic) for all SF 5..12 x all 10 bandwidths. The models are "
